@@ -60,7 +60,11 @@ Definition adaptive_code (A : list (list Q)) (B C E : list Q) (maxf minf smult :
   match r with
   | (None, _) => 3%nat
   | (Some ys, l) =>
-      let thin := existsb (fun a => PrimFloat.ltb (margin_of a 0) 0x1p-20) l in
+      (* thin: a decision near its threshold, or an error estimate that is rounding noise (its value, and
+         with it the next step size, then depends on the reduction order of the implementation) *)
+      let noisy := fun (a : attempt (T := float)) =>
+        PrimFloat.ltb 0 (at_errraw a) && PrimFloat.ltb (at_errraw a) (PrimFloat.mul 0x1p-36 (PrimFloat.add (at_ymax a) 0x1p-20)) in
+      let thin := existsb (fun a => PrimFloat.ltb (margin_of a 0) 0x1p-20 || noisy a) l in
       if thin then 2%nat
       else
         let neg := match ts with t0 :: t1 :: _ => PrimFloat.ltb t1 t0 | _ => false end in
